@@ -216,6 +216,9 @@ func runC09(ctx *runCtx) {
 	rep := ctx.rep
 	rep.Rule = "scripted adversary peers {silent, stall after k bytes of a header (k=1,2,6,10,13; also with the k bytes arriving together with a preceding complete frame), stall after k payload bytes (k=0,1,100,5000), endless small data frames, one frame declaring 2^62 bytes fed forever, never reads (writes block), floods data frames and never reads, half-close, data message to a CloseRead connection} x local state at the time of the call {idle, reader blocked, message half read, CloseRead active, writer blocked, a Write / Ping without deadline arriving 200 ms after the call began (against a peer that never reads, a silent peer, a peer stalled inside a payload)} x {Close, CloseNow} x role; " +
 		"wall clock: Close <= 12.5 s, CloseNow <= 1.5 s, blocked calls and the CloseRead context released <= 1.5 s after. distinct = scenario tuple"
+	if cirTraceReplay(ctx) {
+		return
+	}
 	if ctx.replay != "" {
 		var cc c09Case
 		if err := loadReplay(ctx.replay, &cc); err == nil && cc.Peer != "" {
@@ -304,6 +307,7 @@ func runC09(ctx *runCtx) {
 		timeoutDifferential(rep, newRng(ctx.seed, "c09timeout"), 60, &lines, &expect, &what)
 		askAndCompare(ctx, lines, expect, what, "timeout-goroutine-model-vs-impl")
 	}
+	cirTraceValidation(ctx, cirTraceN(ctx))
 	rep.sample(cases[0])
 	rep.sample(cases[len(cases)-1])
 }
